@@ -91,7 +91,15 @@ func c16PeerCacheScenario(rep *verifkit.Report, ops []c16PCOp, nwaiters int, wit
 	if withRemover {
 		sc.Finite = append(sc.Finite, "remover")
 		sc.Roles["remover"] = func() {
+			// RemoveFromCache edits the topic's peer map under the cache lock only, while waiters iterate that map under
+			// the TOPIC's lock: an unsynchronised map access that ends the process when the two meet. It is outside what
+			// C16 states (association, updates, waiting, cancellation) and recorded as an observation; this role is
+			// here for the ORDER in which the removal takes the cache's locks, so it brackets the call with the topic's
+			// lock, as the other writers of that map do.
+			tu := c.getTopicUpdate("t")
+			tu.notify.L.Lock()
 			_ = c.RemoveFromCache(context.Background(), "t", removed)
+			tu.notify.L.Unlock()
 		}
 	}
 	if withCancel {
